@@ -26,6 +26,10 @@ type c12Op struct {
 	Arg2 int    `json:"arg2,omitempty"`
 	Str  string `json:"str,omitempty"`
 	Obs  int    `json:"obs"` // bit mask of the observers called after the step: 1 Peek, 2 RawPeek, 4 RawCursor, 8 Cursor
+	// PeekAny only: the predicate looks at the lexer it is called from (Inspect) / panics at its PanicAt-th call and
+	// the caller recovers: PeekAny is an observation, whatever its predicate does
+	Inspect bool `json:"inspect,omitempty"`
+	PanicAt int  `json:"panic_at,omitempty"`
 }
 
 type c12Case struct {
@@ -214,7 +218,38 @@ func (s *c12State) step(i int, op c12Op) string {
 			if s.toks[j].EOF() {
 				s.atEOF = true
 			}
-			got, cur := s.pl.PeekAny(pred)
+			before := s.pl.MakeCheckpoint()
+			moved := ""
+			calls := 0
+			wrapped := func(t lexer.Token) bool {
+				calls++
+				if op.Inspect && moved == "" {
+					if now := s.pl.MakeCheckpoint(); now != before {
+						moved = fmt.Sprintf("%s: while PeekAny runs its predicate (call %d) the lexer's state is %+v, it was %+v when PeekAny was called", when, calls, now, before)
+					}
+				}
+				if op.PanicAt > 0 && calls == op.PanicAt {
+					panic("the predicate panics")
+				}
+				return pred(t)
+			}
+			var got lexer.Token
+			var cur lexer.RawCursor
+			returned := false
+			func() {
+				defer func() { _ = recover() }()
+				got, cur = s.pl.PeekAny(wrapped)
+				returned = true
+			}()
+			if moved != "" {
+				msg = moved
+				return
+			}
+			if !returned {
+				// the predicate panicked and the caller recovered: nothing was observed, nothing may have moved (the
+				// observers called after this step compare with the unchanged model)
+				break
+			}
 			if got != s.toks[j] || int(cur) != j {
 				msg = fmt.Sprintf("%s: PeekAny = (%#v, %d), model (%#v, %d)", when, got, cur, s.toks[j], j)
 				return
@@ -315,6 +350,10 @@ func genC12Op(t *rapid.T, name string) c12Op {
 			op.Arg = rapid.SampledFrom(c12Types).Draw(t, "ptype")
 		case "value":
 			op.Str = rapid.SampledFrom([]string{"a", "b", " ", "#"}).Draw(t, "pvalue")
+		}
+		op.Inspect = rapid.IntRange(0, 3).Draw(t, "inspect") == 0
+		if rapid.IntRange(0, 5).Draw(t, "panics") == 0 {
+			op.PanicAt = rapid.IntRange(1, 4).Draw(t, "panicat")
 		}
 	case "FastForward", "LoadCheckpoint":
 		op.Arg = rapid.IntRange(0, 63).Draw(t, "idx")
